@@ -7,7 +7,6 @@ open Ref
 
 theorem steps_rel (p : List Stmt) (st st' : State) (c : Option Nat) (im : Img)
     (hr : Rel st st.tasks c im) (hwf : ∀ s ∈ p, s.wf = true)
-    (hal : ∀ x n, (some x, Stmt.align n) ∈ trace c p → x < top ∨ size x (.align n) = 0)
     (h : steps st p = .ok st') :
     ∃ im', pass2 c im p = some im' ∧ Rel st' st'.tasks (cursorAfter c p) im' ∧
       (∀ a, (im.get a).isSome = true → im'.get a = im.get a) := by
@@ -21,10 +20,8 @@ theorem steps_rel (p : List Stmt) (st st' : State) (c : Option Nat) (im : Img)
     | error e => rw [hs] at h; cases h
     | ok st1 =>
       rw [hs] at h; simp only at h
-      obtain ⟨im1, e1, r1, m1⟩ := step_rel st st1 s c im hr (hwf s List.mem_cons_self)
-        (fun x n hc hsn => hal x n (by rw [hc, hsn]; exact List.mem_cons_self)) hs
-      obtain ⟨im2, e2, r2, m2⟩ := ih st1 (next c s) im1 r1 (fun x hx => hwf x (List.mem_cons_of_mem _ hx))
-        (fun x n hx => hal x n (List.mem_cons_of_mem _ hx)) h
+      obtain ⟨im1, e1, r1, m1⟩ := step_rel st st1 s c im hr (hwf s List.mem_cons_self) hs
+      obtain ⟨im2, e2, r2, m2⟩ := ih st1 (next c s) im1 r1 (fun x hx => hwf x (List.mem_cons_of_mem _ hx)) h
       refine ⟨im2, by rw [e1, e2], r2, fun a ha => ?_⟩
       have h1 := m1 a ha
       rw [m2 a (by rw [h1]; exact ha), h1]
@@ -82,10 +79,10 @@ theorem run_ok (p : List Stmt) (img : Img) (h : run p = .ok img) :
         exact ⟨st, st1, st2, rfl, hr, hc, rfl⟩
 
 /-- the image of a successful run is the `pass2` image -/
-theorem run_pass2 (p : List Stmt) (img : Img) (h : run p = .ok img) (hwf : ∀ s ∈ p, s.wf = true)
-    (hal : NoAlignAtTop p) : ∃ img', pass2 none [] p = some img' ∧ ∀ a, img.get a = img'.get a := by
+theorem run_pass2 (p : List Stmt) (img : Img) (h : run p = .ok img) (hwf : ∀ s ∈ p, s.wf = true) :
+    ∃ img', pass2 none [] p = some img' ∧ ∀ a, img.get a = img'.get a := by
   obtain ⟨st, st1, st2, hs, hr, hc, rfl⟩ := run_ok p img h
-  obtain ⟨im', e1, r1, _⟩ := steps_rel p {} st none [] rel_init hwf hal hs
+  obtain ⟨im', e1, r1, _⟩ := steps_rel p {} st none [] rel_init hwf hs
   have r1' : Rel { st with tasks := [] } st.tasks (cursorAfter none p) im' := r1.congr rfl rfl
   obtain ⟨hc1, hv⟩ := runTasks_rel st.tasks _ st1 _ im' r1' hr
   obtain ⟨st2', h2, _, _, _, _, hg, _⟩ := closeSeg_spec st1 hc1
